@@ -182,7 +182,8 @@ static int step(prog_t* P) {
       val_t* a = pick(P, T_ZNX);
       if (!a) return 0;
       const int inplace = (rng_u64(r) % 4) == 0;
-      const uint64_t rs = inplace ? a->size : rsize(P);
+      // in place: the output may have fewer limbs than the aliased input (the remaining limbs keep their data)
+      const uint64_t rs = inplace ? ((rng_u64(r) & 1) ? a->size : rng_u64(r) % (a->size + 1)) : rsize(P);
       val_t* res = inplace ? a : newval(P, T_ZNX, rs, rstride(P), "");
       if (!res) return 0;
       int64_t p = rng_sbits(r, 1 + (unsigned)(rng_u64(r) % 62));
@@ -209,6 +210,14 @@ static int step(prog_t* P) {
         case 2: vec_znx_negate(M, res->p, rs, res->sl, a->p, a->size, a->sl); break;
         case 3: vec_znx_rotate(M, p, res->p, rs, res->sl, a->p, a->size, a->sl); break;
         default: vec_znx_automorphism(M, p, res->p, rs, res->sl, a->p, a->size, a->sl);
+      }
+      if (inplace && rs < a->size) {  // limbs beyond res_size keep their previous content
+        i128* full = malloc(a->size * N * sizeof(i128));
+        memcpy(full, nx, rs * N * sizeof(i128));
+        memcpy(full + rs * N, a->x + rs * N, (a->size - rs) * N * sizeof(i128));
+        free(nx);
+        nx = full;
+        cnt("inplace_fewer_limbs", 1);
       }
       free(res->x);
       res->x = nx;
